@@ -55,7 +55,8 @@ def run(v):
                    "c09_mc", workers=12, timeout=3000, coverage=False)
     if r.violated:
         v.failure({"kind": "model", "invariant": r.violated}, {"tlc_output": r.output[-3000:]})
-    v.add_mc(f"MC_LspServer/{t}", r, "2 urls x 2 texts, open/change/close, handlers interleaved at cfg/load/set/pub: "
+    v.add_mc(f"MC_LspServer/{t}", r, "2 urls x 2 texts x 2 configurations, open/change/save/close/refresh/didChangeConfiguration, handlers interleaved at "
+             "read/cfg/load/set/pub and store/rebuild/each: "
              "LastWordUnlessOverlapped (the quiescent last-word invariant, with overlapping handlers for one url as the "
              "named deviation)")
     rs = common.tlc(os.path.join(SPEC, "mc", "MC_LspServer.tla"), os.path.join(SPEC, "mc", "MC_LspServer_strict.cfg"),
@@ -66,6 +67,11 @@ def run(v):
     rd = common.tlc(os.path.join(SPEC, "mc", "MC_LspServer.tla"), os.path.join(SPEC, "mc", "MC_LspServer_diskrefresh.cfg"),
                     "c09_mc_disk", workers=4, timeout=900, coverage=False)
     v.cov["design_level_counterexample_with_disk_refresh"] = bool(rd.violated)
+    # a seeded deviation (didChangeConfiguration keeps the linters of open documents) must be refuted sequentially
+    rk = common.tlc(os.path.join(SPEC, "mc", "MC_LspServer.tla"), os.path.join(SPEC, "mc", "MC_LspServer_dev_keeplinters.cfg"),
+                    "c09_mc_keep", workers=4, timeout=900, coverage=False)
+    if rk.violated != "LastWordUnlessOverlapped":
+        raise common.ToolError("MC_LspServer: the keep-linters deviation is not refuted (vacuous invariant)")
     # liveness: the server always comes to rest (weak fairness of handler steps, no state constraint)
     rl = common.tlc(os.path.join(SPEC, "mc", "MC_LspServer.tla"), os.path.join(SPEC, "mc", "MC_LspServer_live.cfg"),
                     "c09_mc_live", workers=8, timeout=1800, coverage=False)
